@@ -20,27 +20,29 @@ Definition C17_float_wrapped_stmt : Prop :=
 Lemma Rabs_bounds v m : Rabs v <= m -> - m <= v <= m.
 Proof. intros H. apply Rabs_le_inv. exact H. Qed.
 
-Lemma C17_float_wrapped : C17_float_wrapped_stmt.
+(** the rounded wrap computation on arbitrary reals: q = rnd(x/u), K = floor q, r = rnd(x - rnd(K u)) *)
+Definition wrap_fl (x u : R) : R := rnd (x - rnd (IZR (Int_part (rnd (x / u))) * u)).
+Definition wrap_k (x u : R) : Z := Int_part (rnd (x / u)).
+Lemma wrap_core x u : 0 < u ->
+  let K := IZR (wrap_k x u) in let R0 := x - K * u in
+  - (Rabs x * uu) <= R0 <= u + Rabs x * uu /\
+  Rabs (wrap_fl x u - R0) <= 3 * uu * (Rabs x + u) /\
+  - (4 * uu * (Rabs x + u)) <= wrap_fl x u <= u + 4 * uu * (Rabs x + u).
 Proof.
-  intros k a x u Hu. pose proof uu_small as Hs. pose proof (Rabs_pos x) as Px.
+  intros Hu. pose proof uu_small as Hs. pose proof (Rabs_pos x) as Px.
+  unfold wrap_fl, wrap_k. cbv zeta.
   destruct (rnd_rel (x / u)) as (d0 & H0 & E0).
   set (kz := Int_part (rnd (x / u))). set (K := IZR kz).
   destruct (rnd_rel (K * u)) as (d1 & H1 & E1).
   destruct (rnd_rel (x - rnd (K * u))) as (d2 & H2 & E2).
-  exists (rnd (x - rnd (K * u))), kz.
-  split.
-  { unfold p_f_wrapped. cbv [run den_nodes den_tree den_cond den_node den_atom p_nodes p_tree nth app map Rfl_ops R_ops cstq named_of op1_of op2_of ltb].
-    rewrite (proj2 (Rltb_true 0 (a 1%nat))) by exact Hu. reflexivity. }
-  (* k <= q < k + 1 with q = (x/u)(1+d0), hence k u <= x (1+d0) < (k+1) u *)
   destruct (base_Int_part (rnd (x / u))) as (Hk1 & Hk2). fold kz in Hk1, Hk2. fold K in Hk1, Hk2.
   rewrite E0 in Hk1, Hk2.
   assert (Hq : x / u * (1 + d0) * u = x * (1 + d0)) by (field; lra).
   assert (L1 : K * u <= x * (1 + d0)) by (rewrite <- Hq; apply Rmult_le_compat_r; lra).
   assert (L2 : x * (1 + d0) < (K + 1) * u) by (rewrite <- Hq; apply Rmult_lt_compat_r; lra).
-  destruct (Rabs_bounds _ _ H0) as (B0a & B0b). 
+  destruct (Rabs_bounds _ _ H0) as (B0a & B0b).
   assert (Xd : Rabs (x * d0) <= Rabs x * uu) by (apply Rabs_le_mul; [ lra | exact H0 ]).
   destruct (Rabs_bounds _ _ Xd) as (Xa & Xb).
-  (* the exact remainder and the multiple *)
   set (R0 := x - K * u). assert (R0a : - (Rabs x * uu) <= R0) by (unfold R0; nra). assert (R0b : R0 <= u + Rabs x * uu) by (unfold R0; nra).
   assert (AR0 : Rabs R0 <= u + Rabs x * uu) by (apply Rabs_le; nra).
   assert (AKu : Rabs (K * u) <= Rabs x + (u + Rabs x * uu)).
@@ -57,8 +59,95 @@ Proof.
     assert (Xuuu : Rabs x * uu * uu * uu <= Rabs x * uu * / 1000) by nra.
     assert (Uu : 0 <= u * uu) by nra. assert (Uuu : u * uu * uu <= u * uu * / 1000) by nra.
     nra. }
-  split; [ exact Err | ].
+  split; [ split; assumption | ]. split; [ exact Err | ].
   destruct (Rabs_bounds _ _ Err) as (Ea & Eb).
   assert (Xu : 0 <= Rabs x * uu) by nra.
+  split; nra.
+Qed.
+
+Lemma C17_float_wrapped : C17_float_wrapped_stmt.
+Proof.
+  intros k a x u Hu.
+  exists (wrap_fl x u), (wrap_k x u).
+  split.
+  { unfold p_f_wrapped, wrap_fl. cbv [run den_nodes den_tree den_cond den_node den_atom p_nodes p_tree nth app map Rfl_ops R_ops cstq named_of op1_of op2_of ltb].
+    rewrite (proj2 (Rltb_true 0 (a 1%nat))) by exact Hu. reflexivity. }
+  destruct (wrap_core x u Hu) as (_ & Err & Rng). split; [ exact Err | exact Rng ].
+Qed.
+
+(** ** wrapped_between under rounding: (x - lo) wrapped by (hi - lo), plus lo — every step rounded *)
+Definition C17_float_wrapped_between_stmt : Prop :=
+  forall k a, let x := a 0%nat in let lo := a 1%nat in let hi := a 2%nat in 0 <= lo < hi ->
+    let M := Rabs x + 2 * lo + hi in
+    exists r (kz : Z),
+      run (Rfl_ops k) (noF 0) a p_f_wrapped_between = Ret ([], [r]) /\
+      Rabs (r - (x - IZR kz * (hi - lo))) <= 10 * uu * M /\
+      lo - 10 * uu * M <= r <= hi + 10 * uu * M.
+
+Lemma rnd_pos x : 0 < x -> 0 < rnd x.
+Proof.
+  intros Hx. destruct (rnd_rel x) as (d & H & E). rewrite E. pose proof uu_small. apply Rabs_le_inv in H.
+  apply Rmult_lt_0_compat; lra.
+Qed.
+
+Lemma C17_float_wrapped_between : C17_float_wrapped_between_stmt.
+Proof.
+  intros k a x lo hi Hb M. pose proof uu_small as Hs. pose proof (Rabs_pos x) as Px.
+  set (P := hi - lo). assert (HP : 0 < P) by (unfold P; lra).
+  set (x0 := rnd (x - lo)). set (Rr := rnd P). assert (HR : 0 < Rr) by (apply rnd_pos; exact HP).
+  exists (rnd (wrap_fl x0 Rr + lo)), (wrap_k x0 Rr).
+  split.
+  { unfold p_f_wrapped_between, wrap_fl, x0, Rr, P.
+    cbv [run den_nodes den_tree den_cond den_node den_atom p_nodes p_tree nth app map Rfl_ops R_ops cstq named_of op1_of op2_of ltb].
+    rewrite (proj2 (Rltb_true (a 1%nat) (a 2%nat))) by (fold lo hi; lra).
+    rewrite (proj2 (Rltb_false (a 1%nat) 0)) by (fold lo; lra).
+    rewrite (proj2 (Rltb_true 0 (a 2%nat))) by (fold hi; lra).
+    rewrite (proj2 (Rltb_true 0 (rnd (a 2%nat - a 1%nat)))) by (fold lo hi P Rr; exact HR).
+    reflexivity. }
+  assert (HM : 0 <= M) by (unfold M; lra).
+  destruct (rnd_rel (x - lo)) as (da & Ha & Ea). fold x0 in Ea.
+  destruct (rnd_rel P) as (db & Hb' & Eb). fold Rr in Eb.
+  destruct (wrap_core x0 Rr HR) as ((R0a & R0b) & E1 & (Wa & Wb)). cbv zeta in *.
+  set (K := IZR (wrap_k x0 Rr)) in *. set (w := wrap_fl x0 Rr) in *. set (R0 := x0 - K * Rr) in *.
+  destruct (rnd_rel (w + lo)) as (dc & Hc & Ec). rewrite Ec.
+  destruct (Rabs_bounds _ _ Ha) as (A1 & A2). destruct (Rabs_bounds _ _ Hb') as (B1 & B2). destruct (Rabs_bounds _ _ Hc) as (C1 & C2).
+  (* sizes *)
+  assert (Xl : Rabs (x - lo) <= Rabs x + lo) by (eapply Rle_trans; [ apply Rabs_le_sub; [ apply Rle_refl | apply Rle_refl ] | rewrite (Rabs_pos_eq lo) by lra; lra ]).
+  assert (X0 : Rabs x0 <= (Rabs x + lo) * (1 + uu)) by (rewrite Ea; apply Rabs_le_mul; [ exact Xl | apply Rabs_le_1p; exact Ha ]).
+  assert (RP : P * (1 - uu) <= Rr <= P * (1 + uu)) by (rewrite Eb; split; apply Rmult_le_compat_l; lra).
+  assert (Pm : P <= hi) by (unfold P; lra).
+  assert (S1 : Rabs x0 + Rr <= 1.002 * M) by (unfold M; nra).
+  assert (S1' : 0 <= Rabs x0) by apply Rabs_pos.
+  (* the wrap error and the size of the wrapped value *)
+  assert (E1' : Rabs (w - R0) <= 3.01 * uu * M) by (eapply Rle_trans; [ exact E1 | nra ]).
+  assert (AR0 : Rabs R0 <= 1.003 * M) by (apply Rabs_le; split; nra).
+  assert (Aw : Rabs w <= 1.01 * M) by (apply Rabs_le; split; nra).
+  (* K P from K R *)
+  set (KP := K * P). assert (EKR : K * Rr = KP * (1 + db)) by (unfold KP; rewrite Eb; ring).
+  assert (AKR : Rabs (K * Rr) <= 2.01 * M).
+  { replace (K * Rr) with (x0 - R0) by (unfold R0; ring). eapply Rle_trans; [ apply Rabs_le_sub; [ apply Rle_refl | exact AR0 ] | nra ]. }
+  assert (AKP : Rabs KP <= 2.02 * M).
+  { assert (H1 : Rabs (K * Rr) = Rabs KP * Rabs (1 + db)) by (rewrite EKR; apply Rabs_mult).
+    assert (H2 : 0.999 <= Rabs (1 + db)) by (rewrite Rabs_pos_eq; lra).
+    pose proof (Rabs_pos KP). nra. }
+  assert (AKPb : Rabs (KP * db) <= 2.02 * M * uu) by (apply Rabs_le_mul; assumption).
+  assert (Axa : Rabs ((x - lo) * da) <= (Rabs x + lo) * uu) by (apply Rabs_le_mul; assumption).
+  (* the result against the exact congruent value *)
+  set (T := x - KP).
+  assert (Dec : w + lo - T = (w - R0) + ((x - lo) * da - KP * db)).
+  { unfold T, R0. rewrite Ea, EKR. ring. }
+  assert (Mid : Rabs (w + lo - T) <= 6.1 * uu * M).
+  { rewrite Dec. eapply Rle_trans; [ apply Rabs_le_add; [ exact E1' | apply Rabs_le_sub; [ exact Axa | exact AKPb ] ] | unfold M; nra ]. }
+  assert (Awl : Rabs (w + lo) <= 2.01 * M).
+  { eapply Rle_trans; [ apply Rabs_le_add; [ exact Aw | apply Rle_refl ] | rewrite (Rabs_pos_eq lo) by lra; unfold M; nra ]. }
+  assert (Last : Rabs ((w + lo) * dc) <= 2.01 * M * uu) by (apply Rabs_le_mul; assumption).
+  assert (Tot : Rabs ((w + lo) * (1 + dc) - T) <= 10 * uu * M).
+  { replace ((w + lo) * (1 + dc) - T) with ((w + lo - T) + (w + lo) * dc) by ring.
+    eapply Rle_trans; [ apply Rabs_le_add; [ exact Mid | exact Last ] | nra ]. }
+  split; [ unfold T, KP in Tot; unfold K in Tot; unfold P in Tot; exact Tot | ].
+  (* range *)
+  destruct (Rabs_bounds _ _ E1') as (G1 & G2). destruct (Rabs_bounds _ _ Last) as (L1 & L2).
+  assert (Rhi : Rr + lo <= hi + uu * M) by (unfold M, P in *; nra).
+  assert (X0u : Rabs x0 * uu <= 1.002 * M * uu) by nra.
   split; nra.
 Qed.
